@@ -69,7 +69,11 @@ func c13Run(c *core.Case, o *core.Outcome) {
 			length = 500 + r.IntN(3000)
 		}
 		profile := r.IntN(6)
-		pname := []string{"zero", "constant", "bursts", "ramp", "random", "huge"}[profile]
+		if j == 0 && r.IntN(2) == 0 {
+			// zero jitter is the identity for every rate an int can hold
+			profile = 6
+		}
+		pname := []string{"zero", "constant", "bursts", "ramp", "random", "huge", "extreme"}[profile]
 		konst := 1 + r.IntN(500)
 		seqAt := func(k int) int {
 			switch profile {
@@ -86,6 +90,8 @@ func c13Run(c *core.Case, o *core.Outcome) {
 				return k % 977
 			case 4:
 				return int((uint64(k)*2654435761 + uint64(konst)) % 3000)
+			case 6:
+				return []int{1<<53 + 1, 1<<60 + 12345, math.MaxInt64 - konst, math.MaxInt64, 1<<62 + 1, konst, 1<<53 - 1}[k%7]
 			default:
 				if k%7 == 0 {
 					return 1_000_000
